@@ -177,19 +177,23 @@ def native_run(target, inputs, choices):
                 fn = cls.__dict__[mname]
                 fn = getattr(fn, '__func__', fn)
                 setattr(obj, mname, _types.MethodType(fn, obj))
-        for handle, (ifile, icls) in _inline_classes(target, st).items():
+        def make_nfb(ifile, icls):
             import types as _types
             from . import extract as _ex
             mod, _g = _ex.module_globals(ifile)
             cls = mod
             for part in icls.split('.'):
                 cls = getattr(cls, part)
+                if type(cls).__name__ == 'Extern':
+                    cls = cls.__dict__['original']       # the constructor is patched by the contract: the class behind it
 
             def nfb(obj, mname, cls=cls, ifile=ifile, icls=icls):
                 fn = cls.__dict__.get(mname)
                 if isinstance(fn, (str, int, float, tuple, list, dict, frozenset, set, __import__('re').Pattern)):
                     import copy as _copy
                     return _copy.deepcopy(fn)          # a class-level constant: a private copy, as in the symbolic run
+                if isinstance(fn, property):
+                    return _PropertyFB(_types.MethodType(fn.fget, obj))
                 if fn is None:
                     d = _ex.constructor_default(ifile, icls, mname)
                     if d is not None:
@@ -199,8 +203,20 @@ def native_run(target, inputs, choices):
                 if isinstance(fn, staticmethod):
                     return fn.__func__
                 return _types.MethodType(getattr(fn, '__func__', fn), obj)
+            return nfb
+
+        def new_instance(ifile, icls, stub_name, *args, **kwargs):
+            """an instance of a REAL class of /repo as a stub: its constructor and every method / property come from the
+            class's current source"""
+            o = Obj(stub_name)
+            nfb = make_nfb(ifile, icls)
+            object.__setattr__(o, '_fallback', nfb)
+            nfb(o, '__init__')(*args, **kwargs)
+            return o
+        ctx.new_instance = new_instance
+        for handle, (ifile, icls) in _inline_classes(target, st).items():
             if isinstance(_resolve_handle(st, handle), Obj):
-                object.__setattr__(_resolve_handle(st, handle), '_fallback', nfb)
+                object.__setattr__(_resolve_handle(st, handle), '_fallback', make_nfb(ifile, icls))
         with target.patched(externs):
             out = target.run_native(ctx, st)
             clauses = list(target.ensures(ctx, st, out))     # evaluated under the same patched externs
@@ -261,7 +277,7 @@ def explore_chunk(target, work, limit, carve_names, tier, cross_check=True):
                 iex = _ex.function(ifile, icls + '.' + mname)
                 setattr(obj, mname, BoundClosure(Closure(iex.node, Env(globs=iglobs), it, icls + '.' + mname), obj))
                 rep.inlined[icls + '.' + mname] = iex.describe()
-        for handle, (ifile, icls) in _inline_classes(target, st).items():
+        def make_fb(ifile, icls):
             # any OTHER method of the class that the code calls on this stub is interpreted from its real source
             from .interp import Closure, Env, BoundClosure
             from . import extract as _ex
@@ -290,9 +306,21 @@ def explore_chunk(target, work, limit, carve_names, tier, cross_check=True):
                 decos = [_ast.unparse(d) for d in iex.node.decorator_list]
                 if 'staticmethod' in decos:
                     return clo_
+                if 'property' in decos:
+                    return _PropertyFB(BoundClosure(clo_, obj))
                 return BoundClosure(clo_, obj)
+            return fb
+
+        def new_instance(ifile, icls, stub_name, *args, **kwargs):
+            o = Obj(stub_name)
+            fb = make_fb(ifile, icls)
+            object.__setattr__(o, '_fallback', fb)
+            fb(o, '__init__')(*args, **kwargs)
+            return o
+        ctx.new_instance = new_instance
+        for handle, (ifile, icls) in _inline_classes(target, st).items():
             if isinstance(_resolve_handle(st, handle), Obj):
-                object.__setattr__(_resolve_handle(st, handle), '_fallback', fb)
+                object.__setattr__(_resolve_handle(st, handle), '_fallback', make_fb(ifile, icls))
         out = None
         try:
             out = target.run_symbolic(ctx, st, it, ex, globs)
@@ -449,6 +477,13 @@ def _receiver(st):
 
 def _resolve_handle(st, handle):
     return _receiver(st) if handle == '__receiver__' else getattr(st, handle, None)
+
+
+class _PropertyFB:
+    """wrapper: a property of the real class; evaluated on EVERY read of the attribute (never cached on the stub)"""
+
+    def __init__(self, getter):
+        self.getter = getter
 
 
 class _FieldDefault:
